@@ -57,9 +57,15 @@ class World:
     self.path = path
     mem = fedjax.InMemoryFederatedData(dict(self.data))
     sql = sq.SQLiteFederatedData.new(path)
+    def subset_of(base):
+      try:
+        return fedjax.SubsetFederatedData(base, set(self.ids))
+      except Exception as ex:  # pylint: disable=broad-except
+        return f'{type(ex).__name__}: {ex}'[:120]     # observed as an erroneous view (never a harness failure)
+
     self.roots = {'mem': mem, 'sql': sql,
-                  'sub_mem': fedjax.SubsetFederatedData(fedjax.InMemoryFederatedData(dict(self.data)), set(self.ids)),
-                  'sub_sql': fedjax.SubsetFederatedData(sq.SQLiteFederatedData.new(path), set(self.ids))}
+                  'sub_mem': subset_of(fedjax.InMemoryFederatedData(dict(self.data))),
+                  'sub_sql': subset_of(sq.SQLiteFederatedData.new(path))}
     rank = self.rank
 
     def ctag(t):
@@ -152,7 +158,8 @@ class World:
       if req:     # a request may name a client more than once (sampling with replacement): one entry per occurrence
         req = req + [req[0]] + [req[len(req) // 2]]
         req.insert(1, req[0])
-      got = list(fd.get_clients(req))
+      # the request is any iterable: a list, or a one-shot iterator / generator
+      got = list(fd.get_clients((req, iter(req), (c for c in req))[len(req) % 3]))
       if [c for c, _ in got] != req:
         paths = False
         notes.append('get_clients order')
